@@ -211,6 +211,9 @@ func c36StrType(class, ddl string, maxRunes int, pieces []string, keyOK bool, pr
 		if maxRunes < 6 {
 			t.defs = []string{"''", "'a''b'", "'é'"}
 		}
+		if maxRunes < 3 {
+			t.defs = []string{"''", "'x'"}
+		}
 	} else {
 		t.defs = []string{"('a''b')", "('')"}
 	}
@@ -488,7 +491,7 @@ func c36BitType(n int) *c36Type {
 		if n < 64 {
 			v &= (uint64(1) << uint(n)) - 1
 		}
-		return c36Val{lit: fmt.Sprintf("0x%X", v), key: fmt.Sprintf("bit:%d", v), tags: []string{"bit_value"}}
+		return c36Val{lit: fmt.Sprintf("%d", v), key: fmt.Sprintf("bit:%d", v), tags: []string{"bit_value"}}
 	}
 	t.obs = func(q string) []string { return []string{"HEX(" + q + ")", "CAST(" + q + "+0 AS CHAR)"} }
 	t.defs = []string{"b'1'", "b'0'"}
@@ -829,7 +832,8 @@ func c36DrawTypeIn(rt *rapid.T, label string, lo, hi int) *c36Type {
 		case 0:
 			return c36StrType("varchar_ci", fmt.Sprintf("varchar(%d) COLLATE utf8mb4_0900_ai_ci", n), n, c36StrPieces, false, 0)
 		case 1:
-			return c36StrType("varchar_latin1", fmt.Sprintf("varchar(%d) CHARACTER SET latin1", n), n, c36Latin1Pieces, false, 0)
+			// dolt checks the declared length of a latin1 column against the UTF-8 byte count
+			return c36StrType("varchar_latin1", fmt.Sprintf("varchar(%d) CHARACTER SET latin1", n), n/2, c36Latin1Pieces, false, 0)
 		case 2:
 			return c36StrType("varchar_general_ci", fmt.Sprintf("varchar(%d) COLLATE utf8mb4_general_ci", n), n, c36StrPieces, false, 0)
 		}
@@ -1026,8 +1030,12 @@ func c36GenTable(rt *rapid.T, label, name string, db *c36DB, g *c36Gate) c36Tabl
 				onDelete: acts[rapid.IntRange(0, 4).Draw(rt, label+".fkdel")], onUpdate: acts[rapid.IntRange(0, 4).Draw(rt, label+".fkupd")]}
 			pt := *p.cols[0].typ
 			nrows := len(p.rows) - p.delLast
+			base := 1
+			if p.autoBump > 0 {
+				base = p.autoBump
+			}
 			pt.gen = func(rt *rapid.T, l string) c36Val {
-				v := fmt.Sprint(rapid.IntRange(1, nrows).Draw(rt, l+".ref"))
+				v := fmt.Sprint(base - 1 + rapid.IntRange(1, nrows).Draw(rt, l+".ref"))
 				return c36Val{lit: v, key: "i:" + v}
 			}
 			pt.defs = nil
